@@ -6,6 +6,7 @@ INVARIANT TypeOK
 INVARIANT InvAccepted
 INVARIANT InvSameDesign
 INVARIANT InvRepeat
+INVARIANT InvReadLastWrite
 INVARIANT InvDefined
 INVARIANT InvDefinedSizes
 PROPERTY SrcUnchanged
